@@ -1119,6 +1119,11 @@ func (s *vSim) randomRun(o simOpts) {
 		nInit = 3
 		voters = []uint64{1, 2, 3}
 	}
+	if o.scenarios && s.tid%128 == 71 {
+		scen = 12
+		nInit = 3
+		voters = []uint64{1, 2, 3}
+	}
 	if o.scenarios && s.tid%64 == 23 {
 		scen = 8
 		nInit = 3
@@ -1134,7 +1139,7 @@ func (s *vSim) randomRun(o simOpts) {
 		nInit = 3
 		voters = []uint64{1, 2, 3}
 	}
-	if o.scenarios && s.tid%64 == 7 {
+	if o.scenarios && s.tid%64 == 7 && s.tid%128 != 71 {
 		scen = 7
 		nInit = 3
 		voters = []uint64{1, 2, 3}
@@ -1793,7 +1798,71 @@ func (s *vSim) scenario11(nextID uint64) uint64 {
 	return nextID + 2
 }
 
+// scenario12 (three voters): a witness joins; one follower is cut off; the witness is removed again, the
+// leader takes a snapshot of the new membership and compacts its log; after the heal the follower can only be
+// brought up to date by that snapshot. The membership it uses afterwards must be the snapshot's: no witness
+// (a witness it still counted would be part of its quorums although it is no member any more).
+func (s *vSim) scenario12(nextID uint64) uint64 {
+	s.settle(40, nil, nil, nil, func() bool { return s.leaderNode() != nil && s.leaderNode().applied >= 4 })
+	l := s.leaderNode()
+	if l == nil {
+		return nextID
+	}
+	s.proposeCC(l, opAddWitness, nextID)
+	s.settle(8, nil, nil, nil, nil)
+	if _, ok := s.firstKind[nextID]; !ok || s.nodes[nextID] != nil {
+		return nextID + 1
+	}
+	s.join(nextID, "W")
+	s.settle(8, nil, nil, nil, nil)
+	l = s.leaderNode()
+	if l == nil {
+		return nextID + 1
+	}
+	var f *vNode
+	for _, n := range s.upNodes() {
+		if n.id != l.id && n.kind == "V" {
+			f = n
+			break
+		}
+	}
+	if f == nil {
+		return nextID + 1
+	}
+	only := func(ids ...uint64) map[uint64]bool {
+		m := map[uint64]bool{}
+		for _, n := range s.upNodes() {
+			m[n.id] = true
+		}
+		for _, id := range ids {
+			delete(m, id)
+		}
+		return m
+	}
+	cutf := func(m pb.Message) bool { return m.From == f.id || m.To == f.id }
+	s.proposeCC(l, opRemove, nextID)
+	s.settle(6, cutf, nil, only(l.id), nil)
+	for i := 0; i < 2; i++ {
+		s.nextVal++
+		s.propose(l, s.nextVal)
+		s.settle(2, cutf, nil, only(l.id), nil)
+	}
+	if l.peer.raft.state == leader && s.canSnapshot(l) {
+		s.snapshot(l)
+		if i := l.db.snapshot.Index; s.canCompact(l, i) {
+			s.compact(l, i)
+		}
+	}
+	// heal: only the leader's timer runs, the follower is sent the snapshot
+	s.settle(3*int(s.et), nil, nil, only(l.id), nil)
+	s.settle(int(s.et), nil, nil, nil, nil)
+	return nextID + 1
+}
+
 func (s *vSim) scenario(k int, nextID uint64) uint64 {
+	if k == 12 {
+		return s.scenario12(nextID)
+	}
 	if k == 11 {
 		return s.scenario11(nextID)
 	}
